@@ -33,7 +33,10 @@ def _shapes(tier):
             ([2, 2], [1, 1, 1], [1, 2, 1], [1, 1, 1]),
             ([2, 2, 2], [1, 2, 2, 1], [1, 1, 2, 1], [1, 2, 1, 1]),
             ([2, 1, 2], [1, 2, 1, 1], [1, 2, 2, 1], [1, 2, 2, 1]),
-            ([2, 2, 2], [1, 1, 2, 1], [1, 2, 2, 1], [1, 2, 2, 1])]
+            ([2, 2, 2], [1, 1, 2, 1], [1, 2, 2, 1], [1, 2, 2, 1]),
+            # leading / trailing modes of size 1: the reshaped (super)cores are F-contiguous views that LAPACK may overwrite in place
+            ([1, 2, 2], [1, 1, 2, 1], [1, 1, 2, 1], [1, 1, 2, 1]),
+            ([2, 1], [1, 2, 1], [1, 2, 1], [1, 2, 1])]
     if tier != 'quick':
         base += [([2, 2, 2, 2], [1, 2, 2, 2, 1], [1, 1, 2, 1, 1], [1, 2, 2, 2, 1]),
                  ([2, 3], [1, 2, 1], [1, 2, 1], [1, 3, 1]),
@@ -397,7 +400,7 @@ def _spd_tt(TT, ttmod, rng, dims, rank, cplx):
     return C.transpose(conjugate=True) @ C + ttmod.eye(dims)
 
 
-@scenario('C07', 'descent', lambda tier: [{'dims': dims, 'method': m, 'solver': sv, 'cplx': c} for dims in ([2, 3, 2], [3, 2], [2, 2, 1, 2])
+@scenario('C07', 'descent', lambda tier: [{'dims': dims, 'method': m, 'solver': sv, 'cplx': c} for dims in ([2, 3, 2], [3, 2], [2, 2, 1, 2], [1, 3, 2], [3, 1])
                                            for m in ('als', 'mals') for sv in ('solve', 'lu') for c in (False, True) if not (m == 'mals' and len(dims) < 3 and sv == 'lu')])
 def descent(ctx, dims, method, solver, cplx):
     """NOT a solver verdict (the inequalities need spectral arguments): on random Hermitian positive-definite operators the validation run checks the
